@@ -26,6 +26,7 @@ J_newreq(e) ==
          ELSE IF Len(e.bytes) > MaxADU(e.framing) THEN "adu-too-long"
          ELSE IF e.bytes2 # e.bytes THEN "second-encoding-of-the-same-request-differs"
          ELSE IF e.bytes3 # e.bytes THEN "encoding-changed-when-the-caller-reused-its-argument-slices"
+         ELSE IF e.bytesProto # <<>> /\ e.bytesProto # e.bytes THEN "protocol-identifier-on-the-wire-is-not-zero"
          ELSE IF e.prevNow # e.prevThen THEN "encoding-of-an-earlier-request-changed-after-a-later-one-was-built"
          ELSE "ok"
 
@@ -213,6 +214,14 @@ J_trailer(e) ==
          (IF e.errCRC = 1 THEN "consistent-crc-refused" ELSE "inconsistent-crc-not-refused-as-crc-error")
     ELSE "ok"
 
+\* the exception encoders for ANY unit, function byte and code: five bytes ending with the CRC of the first three
+J_emitexc(e) ==
+    IF e.outcome = "panic" THEN "panic"
+    ELSE IF Len(e.resp) # 5 \/ ~CRCConsistent(e.resp) \/ Len(e.parse) # 5 \/ ~CRCConsistent(e.parse)
+         THEN "emitted-rtu-frame-does-not-end-with-the-crc-of-its-bytes"
+    ELSE IF e.resp[1] # e.unit \/ e.resp[3] # e.code THEN "exception-frame-does-not-carry-the-given-unit-and-code"
+    ELSE "ok"
+
 J_trailer_all(e) ==
     LET n == Len(e.frame)
         good == CRC(SubSeq(e.frame, 1, n - 2))
@@ -226,6 +235,7 @@ J_trailer_all(e) ==
 J_coil(e) ==
     LET i == e.addr - e.start IN
     IF e.outcome = "panic" THEN "panic"
+    ELSE IF e.lenDep THEN "coil-lookup-depends-on-the-redundant-byte-length-field-not-on-the-payload"
     ELSE IF i < 0 \/ i >= 8 * Len(e.payload) THEN
          (IF e.outcome = "err" THEN "ok" ELSE "out-of-range-coil-address-not-an-error")
     ELSE IF e.outcome # "ok" THEN "in-range-coil-address-refused"
@@ -238,7 +248,7 @@ J_coilextract(e) ==
     IF e.outcome = "panic" THEN "panic"
     ELSE IF Len(e.results) # Len(e.addrs) THEN "coil-extraction-result-count-differs"
     ELSE LET verdictAt(i) == J_coil([payload |-> e.payload, start |-> e.start, addr |-> e.addrs[i],
-                                      outcome |-> e.results[i].outcome, value |-> e.results[i].value])
+                                      outcome |-> e.results[i].outcome, value |-> e.results[i].value, lenDep |-> FALSE])
              bad == {i \in DOMAIN e.addrs : verdictAt(i) # "ok" \/ e.results[i].addr # e.addrs[i]}
          IN IF bad = {} THEN "ok" ELSE verdictAt(CHOOSE i \in bad : TRUE)
 
@@ -289,6 +299,7 @@ Judge(e) ==
       [] e.op = "trailer_all"       -> J_trailer_all(e)
       [] e.op = "coil"              -> J_coil(e)
       [] e.op = "coilextract"       -> J_coilextract(e)
+      [] e.op = "emitexc"           -> J_emitexc(e)
       [] e.op = "coilroundtrip"     -> J_coilroundtrip(e)
       [] e.op = "coildevice"        -> J_coildevice(e)
       [] OTHER                      -> "unknown-event"
